@@ -102,10 +102,14 @@ ObsBootstrap ==
       IN /\ Chk("group_turnout_is_sum", Abs(o.pt - e.ptsum) <= e.nmemb + 1)
          /\ Chk("group_margin_is_sum", Abs(o.pm - e.pmsum) <= e.nmemb + 1)
 
+SeqSet(sq) == {sq[k] : k \in DOMAIN sq}
 \* C09: the outlier models are consulted exactly when enabled
 ObsOutlierCalls ==
   Done => /\ Chk("turnout_outlier_model_called_iff_enabled", Obs.calledT = EnabledT)
           /\ Chk("margin_outlier_model_called_iff_enabled", Obs.calledM = EnabledM)
+          \* ... and are fitted on exactly the reporting expected units no hard rule has already set aside
+          /\ (EnabledT => Chk("turnout_outlier_fit_on_candidates_only", SeqSet(Obs.fitT) = OutlierCandidates))
+          /\ (EnabledM => Chk("margin_outlier_fit_on_candidates_only", SeqSet(Obs.fitM) = OutlierCandidates))
 
 (* C03 *)
 ObsFloors ==
